@@ -119,6 +119,9 @@ def replace_typevars(ty: t.Any,
 
     args = (replace_typevars(ty, replacements) for ty in args)
 
+    if base is getattr(types, 'UnionType', t.Union):
+        base = t.Union  # X | Y: rebuild as t.Union, types.UnionType is not subscriptable
+
     if base is t.Union:
         args = tuple(flatten_union_args(args))
         # deduplicate union
